@@ -1,4 +1,5 @@
 import Driver.Proto
+import TinyFlux.Spec.Types
 /-! The oracle: line protocol → Spec only. Builds even when Generated/ or Props/ do not. -/
 open TinyFlux TinyFlux.Spec TinyFlux.Proto
 
@@ -15,6 +16,10 @@ def specLine (db : DB) (line : String) : DB × String :=
       match parsePoint pt with
       | some (some p) => (db, "back=" ++ showPoint p)     -- the specification of a round trip: identity
       | _ => (db, "bad-op")
+    | .list [.atom "validate", .atom sl, .atom ty] =>
+      match Slot.ofName sl, VType.ofName ty with
+      | some s, some t => (db, if wellTyped s t then "welltyped" else "illtyped")
+      | _, _ => (db, "bad-op")
     | .list [.atom "eval", q, pt] =>
       match parseQuery q, parsePoint pt with
       | some q, some (some p) => (db, if sem q p then "ok true" else "ok false")
